@@ -187,6 +187,7 @@ def _cube(rng, nt, dtype="int16", nodata=-9999, ny=2, nx=3, order=("time", "y", 
             data[:, 0, 0] = nodata
             data[:, -1, -1] = 1234
             data[:, 0, -1] = 0
+            data[: max(2, nt // 3), 1, 0] = 0  # a dry season: the zero share of this pixel differs between parts of the axis
         data = data.astype(dtype)
     da = xr.DataArray(data, dims=["time", "y", "x"], coords={"time": pd.date_range("2001-01-01", periods=nt, freq="10D"), "y": np.arange(ny) * 1.0, "x": np.arange(nx) * 1.0},
                       attrs={"nodata": nodata} if with_attr else {}, name="band")
